@@ -32,6 +32,41 @@ class AppBase(BaseException):
     pass
 
 
+class EqErr(Exception):
+    """Value equality (like a @dataclass exception): distinct instances with equal args compare equal."""
+
+    def __eq__(self, other: Any) -> bool:
+        return type(other) is type(self) and other.args == self.args
+
+    def __hash__(self) -> int:
+        return hash((type(self).__name__, len(self.args)))
+
+
+class EqRaises(Exception):
+    """__eq__ that only copes with its own kind (reads an attribute foreign objects do not have)."""
+
+    def __init__(self, *a: Any) -> None:
+        super().__init__(*a)
+        self.code = len(a)
+
+    def __eq__(self, other: Any) -> bool:
+        return other.code == self.code  # AttributeError for foreign types
+
+    def __hash__(self) -> int:
+        return 7
+
+
+class Rebound(Exception):
+    """A class whose module attribute is re-bound to a *new* class object of the same name now and then (module
+    reload, plug-in re-registration): a loaded error must be an instance of the class that is importable now."""
+
+
+def _rebind() -> type:
+    cls = type("Rebound", (Exception,), {"__module__": __name__, "__doc__": "rebound"})
+    globals()["Rebound"] = cls
+    return cls
+
+
 class _HiddenError(Exception):
     """Importable classes whose qualified name has an underscore-prefixed component (private by convention)."""
 
@@ -139,6 +174,7 @@ POOL: Dict[str, Any] = {
     "SecurityError": taskiq.exceptions.SecurityError, "NoResultError": taskiq.exceptions.NoResultError,
     "ValidationErrorLike": json.JSONDecodeError,
     "Hidden": _HiddenError, "PrivNsConflict": _errors.Conflict, "Throttled": Outer._Throttled,
+    "EqErr": EqErr, "EqRaises": EqRaises, "Rebound": Rebound,
 }
 FALSY_POOL = {"Falsy": Falsy, "LenZero": LenZero}
 POOL_ALL = dict(POOL)
@@ -236,6 +272,8 @@ def gen_graph(rng: random.Random, maxn: int = 6, falsy: bool = False, surrogate:
             args = [{"t": "json", "v": "msg"}, {"t": "json", "v": "doc"}, {"t": "json", "v": 0}]
         elif cls == "SecurityError":
             args = []
+        elif cls == "EqErr":
+            args = [{"t": "json", "v": rng.choice(["same", "same", 503])}]  # equal instances on one path are likely
         else:
             args = [gen_arg(rng) for _ in range(rng.choice([0, 1, 1, 2, 3]))]
         if surrogate and rng.random() < 0.3:
@@ -243,6 +281,12 @@ def gen_graph(rng: random.Random, maxn: int = 6, falsy: bool = False, surrogate:
         nodes.append({"cls": cls, "args": args, "cause": None, "context": None, "suppress": None,
                       # state attached to the instance after construction (callback, lock): not part of args
                       "attr": rng.choice([None, None, None, None, "lock", "lambda", "plain"])})
+    r_ = rng.random()
+    if n > 1 and r_ < 0.06:
+        for nd_ in nodes:  # a chain of distinct but equal-valued errors (retries of one failing call)
+            nd_["cls"], nd_["args"] = "EqErr", [{"t": "json", "v": "same"}]
+    elif n > 1 and r_ < 0.10:
+        nodes[rng.randrange(n)].update({"cls": "EqRaises", "args": [{"t": "json", "v": 1}]})
     for i in range(n):
         if n > 1 or rng.random() < 0.2:
             if rng.random() < 0.5:
@@ -260,8 +304,9 @@ def gen_graph(rng: random.Random, maxn: int = 6, falsy: bool = False, surrogate:
 
 def build_graph(g: Dict[str, Any]) -> List[BaseException]:
     excs: List[BaseException] = []
+    rebound_cls = _rebind() if any(nd["cls"] == "Rebound" for nd in g["nodes"]) else None
     for nd in g["nodes"]:
-        cls = POOL_ALL[nd["cls"]]
+        cls = POOL_ALL[nd["cls"]] if nd["cls"] != "Rebound" else rebound_cls
         if nd["cls"] == "CodeError":
             e: BaseException = cls(nd["args"][0]["v"], detail="d")
         elif nd["cls"] == "NoArgInit":
